@@ -250,6 +250,7 @@ let handle (t : string list) : string =
      | Some (ARET rn) -> Printf.sprintf "RET %d" (iz rn)
      | Some (AB i) -> Printf.sprintf "B %d" (iz i)
      | Some ANOP -> "NOP"
+     | Some (ABTI k) -> Printf.sprintf "BTI %d" (iz k)
      | Some (AADRP (rd, i)) -> Printf.sprintf "ADRP %d %d" (iz rd) (iz i)
      | Some (AADDI (rd, rn, i)) -> Printf.sprintf "ADDI %d %d %d" (iz rd) (iz rn) (iz i))
   (* a64reach <writes> <entry> <dst> : execute the bytes the implementation wrote with the A64 semantics *)
